@@ -33,6 +33,13 @@ func verifHosts(l *roundRobinLoadBalancer) []*Host { return l.hosts.Load().([]*H
 //@   ensures result == ufStr("endpoint.key", h.Endpoint)
 //@   modifies nothing
 
+// C15 "yields every host currently in the cluster exactly once", for any history of notifications: a list
+// built from a bootstrap event holds no two entries for the same host (hosts are identified by their
+// endpoint key), and announcing a host that is listed already changes nothing. (That a removal keeps a
+// repetition-free list repetition-free - it is a sub-list - is not proved: the nested quantifiers over
+// the shifted array exceed what the solvers do in the time limit.)
+//@ macro hkey(h) = ufStr("endpoint.key", h.Endpoint)
+//@ macro distinctHosts(s) = forall(i, j, 0, len(s), i != j ==> hkey(s[i]) != hkey(s[j]))
 //@ type proxycore.roundRobinLoadBalancer
 //@   invariant self.mu != nil
 //@   invariant typeis(self.hosts.v, []*Host)
@@ -64,17 +71,46 @@ func verifHosts(l *roundRobinLoadBalancer) []*Host { return l.hosts.Load().([]*H
 
 // OnEvent: the published list is replaced, never edited in place: no store hits a backing array
 // that existed before the call (frame), so plans already handed out are unaffected.
+// appendIfAbsent: what was listed stays, in order; the list grows by at most the host, and only the host;
+// a list without repeated keys stays one (the loop found no entry with the host's key before it appends).
+//@ loop proxycore.appendIfAbsent #1
+//@   invariant none-so-far: forall(k, 0, rangeindex + 1, hkey(hosts[k]) != hkey(host))
+//@ func proxycore.appendIfAbsent [C15]
+//@   ensures kept: len(result) >= len(hosts) && len(result) <= len(hosts) + 1 && forall(k, 0, len(hosts), result[k] == old(hosts[k]))
+//@   ensures appended-is-the-host: len(result) == len(hosts) + 1 ==> result[len(hosts)] == host
+//@   ensures present-unchanged: exists(k, 0, len(hosts), old(hkey(hosts[k])) == hkey(host)) ==> len(result) == len(hosts)
+//@   ensures stays-distinct: old(distinctHosts(hosts)) ==> distinctHosts(result)
+//@   ensures same-or-new-array: samearray(result, hosts) || fresh(result)
+//@   modifies hosts[*]
+
+// copy: the published list, entry by entry, in an array of its own
+//@ func proxycore.roundRobinLoadBalancer.copy [C15, C18]
+//@   requires l != nil && typeis(l.hosts.v, []*Host)
+//@   ensures own-array: fresh(result)
+//@   ensures same-entries: len(result) == len(verifHosts(l)) && forall(k, 0, len(result), result[k] == verifHosts(l)[k])
+//@   modifies nothing
+
+//@ loop proxycore.roundRobinLoadBalancer.OnEvent #1
+//@   invariant building: fresh(hosts) && distinctHosts(hosts) && len(hosts) <= rangeindex + 1
+//@ loop proxycore.roundRobinLoadBalancer.OnEvent #2
+//@   invariant not-found-yet: forall(k, 0, rangeindex + 1, hkey(cpy[k]) != hkey(evt.Host)) && len(cpy) == old(len(verifHosts(l))) && forall(k, 0, len(cpy), cpy[k] == old(verifHosts(l)[k]))
+
 //@ func proxycore.roundRobinLoadBalancer.OnEvent [C15, C18]
 //@   requires l != nil && inv(l)
 //@   requires typeis(event, *BootstrapEvent) ==> as(event, *BootstrapEvent) != nil
 //@   requires typeis(event, *AddEvent) ==> as(event, *AddEvent) != nil && as(event, *AddEvent).Host != nil
 //@   requires typeis(event, *RemoveEvent) ==> as(event, *RemoveEvent) != nil && as(event, *RemoveEvent).Host != nil
 //@   ensures inv(l)
-//@   ensures bootstrap: typeis(event, *BootstrapEvent) ==> verifHosts(l) == old(as(event, *BootstrapEvent).Hosts)
-//@   ensures add-len: typeis(event, *AddEvent) ==> len(verifHosts(l)) == old(len(verifHosts(l))) + 1
-//@   ensures add-last: typeis(event, *AddEvent) ==> verifHosts(l)[len(verifHosts(l))-1] == old(as(event, *AddEvent).Host)
+// bootstrap: the list is built in an array of its own (each of the event's hosts once, however often it is listed)
+//@   ensures bootstrap-own-array: typeis(event, *BootstrapEvent) ==> fresh(verifHosts(l))
+//@   ensures bootstrap-no-repeats: typeis(event, *BootstrapEvent) ==> distinctHosts(verifHosts(l))
+//@   ensures bootstrap-no-more-than-listed: typeis(event, *BootstrapEvent) ==> len(verifHosts(l)) <= old(len(as(event, *BootstrapEvent).Hosts))
+// add: what was listed stays; the list grows by at most the announced host, which then is its last entry
+//@   ensures add-keeps: typeis(event, *AddEvent) ==> len(verifHosts(l)) >= old(len(verifHosts(l))) && len(verifHosts(l)) <= old(len(verifHosts(l))) + 1 && forall(k, 0, old(len(verifHosts(l))), verifHosts(l)[k] == old(verifHosts(l)[k]))
+//@   ensures add-known-host: typeis(event, *AddEvent) && exists(k, 0, old(len(verifHosts(l))), old(hkey(verifHosts(l)[k])) == old(hkey(as(event, *AddEvent).Host))) ==> len(verifHosts(l)) == old(len(verifHosts(l)))
+//@   ensures add-new-last: typeis(event, *AddEvent) && len(verifHosts(l)) == old(len(verifHosts(l))) + 1 ==> verifHosts(l)[len(verifHosts(l))-1] == old(as(event, *AddEvent).Host)
 //@   ensures remove-len: typeis(event, *RemoveEvent) ==> len(verifHosts(l)) == old(len(verifHosts(l))) || len(verifHosts(l)) == old(len(verifHosts(l))) - 1
-// "no removed host": the new list is the old one without its first entry for the removed host's key -
+// "no removed host": the new list is the old one without its entry for the removed host's key -
 // the entries before it and after it are kept, in order ($rmIdx: the index at which the new list was published)
 //@   local $rmFound bool = false
 //@   local $rmIdx int = 0
